@@ -4,6 +4,8 @@ from props import gen_props
 
 
 def run(ctx):
+    from props import gen_unbounded
+    gen_unbounded.run_multiclient_cfg(ctx)   # any interface / settings: fixture or MultiClientCfgError, never an internal error
     only = os.environ.get('PYVC_SHAPES')
     gen_props.run_property(ctx, 'C13', only.split(',') if only else None)
 
